@@ -336,7 +336,7 @@ func ruleC18T7(r *Run, le *LockEngine) {
 	}
 	name := fnName(wr)
 	var reg *ssa.MapUpdate
-	var del ssa.Instruction
+	var del ssa.Instruction // the delete itself, or the defer of a closure that performs it
 	allInstrs(wr, func(ins ssa.Instruction) {
 		if mu, ok := ins.(*ssa.MapUpdate); ok {
 			if u, isU := mu.Map.(*ssa.UnOp); isU && fieldKeyOfAddr(u.X) == rcPkg+".Transport.writeResCh" {
@@ -346,6 +346,17 @@ func ruleC18T7(r *Run, le *LockEngine) {
 		if c, ok := ins.(*ssa.Call); ok {
 			if b, isB := c.Call.Value.(*ssa.Builtin); isB && b.Name() == "delete" {
 				del = ins
+			}
+		}
+		if d, ok := ins.(*ssa.Defer); ok {
+			if cl := closureOf(d.Call.Value); cl != nil {
+				allInstrs(cl, func(x ssa.Instruction) {
+					if c, isCall := x.(*ssa.Call); isCall {
+						if b, isB := c.Call.Value.(*ssa.Builtin); isB && b.Name() == "delete" {
+							del = ins
+						}
+					}
+				})
 			}
 		}
 	})
